@@ -73,3 +73,37 @@ Definition exclusiveb (disabled0 : list str) (ms : list module) : bool :=
 Definition modules_by_name (b : bag) (builder : nat) (app : module) (names : list str) : list module :=
   flat_map (fun n => if str_eqb n (m_name app) then [app]
                      else match resolve_module b builder n with Some m => [m] | None => [] end) names.
+
+(* ---------- C06: the manifest as a build graph ---------- *)
+Require Import Laze.model.Path Laze.model.Hash.
+
+Fixpoint no_dup_strb (l : list str) : bool :=
+  match l with [] => true | x :: t => negb (mem_str x t) && no_dup_strb t end.
+
+Definition stmt_outs (s : stmt) : list str := match s with SBuild b => nb_outs b | SRule _ => [] end.
+Definition stmt_rule_name (s : stmt) : list str := match s with SRule r => [nr_name r] | SBuild _ => [] end.
+
+(* every build statement references phony or a rule defined earlier in the list *)
+Fixpoint rules_before_useb (defined : list str) (l : list stmt) : bool :=
+  match l with
+  | [] => true
+  | SRule r :: t => rules_before_useb (nr_name r :: defined) t
+  | SBuild b :: t => (str_eqb (nb_rule b) (S_ "phony") || mem_str (nb_rule b) defined) && rules_before_useb defined t
+  end.
+
+Definition wf_manifestb (stmts : list stmt) (required_outs : list str) : bool :=
+  no_dup_strb (S_ "ALWAYS" :: flat_map stmt_outs stmts)               (* one statement per output *)
+  && no_dup_strb (flat_map stmt_rule_name stmts)                      (* every rule defined once *)
+  && rules_before_useb [] stmts                                       (* defined (or phony) before use *)
+  && forallb (fun o => mem_str o (flat_map stmt_outs stmts)) required_outs   (* app outputs are targets *)
+  && forallb (fun s => match s with SBuild b => negb (match nb_outs b with [] => true | _ => false end) | _ => true end) stmts.
+
+(* ---------- C07: sharing ---------- *)
+(* compile statements: exactly one input, a non-phony rule *)
+Definition is_compile (s : stmt) : option nbuild :=
+  match s with
+  | SBuild b => match nb_inputs b with
+                | Some [_] => if str_eqb (nb_rule b) (S_ "phony") then None else Some b
+                | _ => None end
+  | SRule _ => None
+  end.
